@@ -1,6 +1,6 @@
 (** C09 — the trace stream is one total order, the same for all subscribers.
     Model: Model/Tracer.v (the broadcaster's request loop with swap-remove unsubscription). *)
-From BV Require Import Model.Tracer Proofs.TracerProofs.
+From BV Require Import Model.Tracer Proofs.TracerProofs Model.TracerFlow Proofs.TracerFlowProofs Gen.Facts.
 
 (* For EVERY history of subscribe / unsubscribe / trace requests (any number of subscribers
    joining and leaving at any time), every subscriber's log is exactly the sequence of traces
@@ -32,6 +32,40 @@ Theorem C09_slice_infix : forall s pre mid post,
            (traces (pre ++ Sub s :: mid ++ Unsub s :: post)) = true.
 Proof. exact slice_is_infix. Qed.
 Print Assumptions C09_slice_infix.
+
+(* NEVER DEADLOCKS (Model/TracerFlow.v: the broadcaster, the senders and the subscribers as goroutines with bounded
+   buffers and the unbuffered acknowledgement of an unsubscription). As long as every subscriber reads or is
+   unsubscribing -- and an unsubscribing one keeps emptying its own channel, the variant the sources show
+   (src_unsubscribe_drains, read off tracer.Unsubscribe) -- the broadcaster is never stuck: whenever a trace is under
+   way, an unsubscription is being acknowledged or a sender waits, one of the goroutines involved can make its next
+   move. Any number of subscribers, any buffer capacity >= 1, any order of sends, reads and unsubscriptions. *)
+Theorem C09_sending_and_leaving_never_deadlock : forall cap k s, 1 <= cap ->
+  freach src_unsubscribe_drains cap k s -> nobody_stopped s -> busy s ->
+  exists l s', internal_f l = true /\ fstep src_unsubscribe_drains cap s l = Some s'.
+Proof. exact never_stuck. Qed.
+Print Assumptions C09_sending_and_leaving_never_deadlock.
+
+(* an unsubscribing subscriber that does not empty its channel: its buffer is full, the broadcaster is pushing the next
+   trace to it and cannot take its unsubscription; nobody can move and every later sender waits for ever *)
+Theorem C09_deadlock_refuted_when_a_leaving_subscriber_does_not_drain :
+  exists s, fexec false 1 (finit 1) [FSendReq; FTake; FDeliver; FStartUnsub 0; FSendReq; FTake] = Some s /\
+    nobody_stopped s /\ busy s /\ forall l, internal_f l = true -> fstep false 1 s l = None.
+Proof. exact refuted_without_draining. Qed.
+Print Assumptions C09_deadlock_refuted_when_a_leaving_subscriber_does_not_drain.
+
+(* a subscriber that holds its subscription and stops reading (a goroutine that first waits for something else -- the
+   mechanism of several seeded shutdown leaks): the broadcaster stands still behind its full buffer; only the other
+   subscriber can still empty what it already has *)
+Theorem C09_deadlock_refuted_with_a_subscriber_that_stopped_reading :
+  exists s, fexec true 1 (finit 2) [FStop 1; FSendReq; FTake; FDeliver; FDeliver; FSendReq; FTake; FPop 0; FDeliver] = Some s /\
+    busy s /\ forall l, internal_f l = true -> fstep true 1 s l = None \/ exists i, l = FPop i /\ i = 0.
+Proof. exact refuted_with_a_stopped_subscriber. Qed.
+Print Assumptions C09_deadlock_refuted_with_a_subscriber_that_stopped_reading.
+
+Example C09_flow_nonvacuous :
+  exists s, fexec true 2 (finit 2) [FSendReq; FSendReq; FTake; FDeliver; FStartUnsub 1; FDeliver; FPop 1; FOffer 1; FAck 1; FTake; FDeliver; FPop 0; FPop 0] = Some s /\
+    phase s = TIdle /\ pend s = 0 /\ map mode (subs_ s) = [SReading; SGone] /\ map fill (subs_ s) = [0; 0].
+Proof. eexists. split; [vm_compute; reflexivity|]. vm_compute. auto. Qed.
 
 Example C09_nonvacuous :
   let cs := [Sub 1; Tr 10; Sub 2; Tr 11; Sub 3; Tr 12; Unsub 1; Tr 13; Unsub 3; Tr 14; Sub 1; Tr 15] in
